@@ -8,6 +8,7 @@ import hashlib
 
 VERIF = os.path.dirname(os.path.dirname(os.path.abspath(__file__)))
 KNOWN = os.path.join(VERIF, 'known_findings.json')
+EVDIR = os.environ.get('PV_EVIDENCE_DIR') or os.path.join(VERIF, 'evidence')
 
 
 def load_known():
@@ -82,8 +83,8 @@ class Report:
         for name, fired, detail in self.controls:
             if not fired:
                 broken.append(f"positive control '{name}' did not fire: {detail}")
-        os.makedirs(os.path.join(VERIF, 'evidence'), exist_ok=True)
-        os.makedirs(os.path.join(VERIF, 'evidence', 'replay'), exist_ok=True)
+        os.makedirs(EVDIR, exist_ok=True)
+        os.makedirs(os.path.join(EVDIR, 'replay'), exist_ok=True)
         lines = []
         for key, lst in seen_known:
             k = known_open[key]
@@ -91,7 +92,7 @@ class Report:
         vio_paths = []
         for n, (key, lst) in enumerate(unlisted):
             h = hashlib.sha1(f"{key[0]}|{key[1]}".encode()).hexdigest()[:10]
-            path = os.path.join(VERIF, 'evidence', 'replay', f"{self.prop}-{h}.json")
+            path = os.path.join(EVDIR, 'replay', f"{self.prop}-{h}.json")
             with open(path, 'w') as f:
                 json.dump(dict(property=self.prop, rule=key[0], construct=key[1], tier=self.tier,
                                failures=lst[:20]), f, indent=1)
@@ -130,7 +131,7 @@ class Report:
                                                "pv.alg exact polynomial arithmetic"]
         ev = dict(property_id=self.prop, tier=self.tier, seed=int(self.seed), level=level, coverage=cov,
                   assumptions=self.assumptions, wall_s=round(wall, 3), violations=len(unlisted))
-        with open(os.path.join(VERIF, 'evidence', f"{self.prop}.json"), 'w') as f:
+        with open(os.path.join(EVDIR, f"{self.prop}.json"), 'w') as f:
             json.dump(ev, f, indent=1, default=str)
         print(f"[{self.prop}] tier={self.tier} obligations={n_obs} failed={len(fails)} "
               f"(known={sum(len(l) for _k, l in seen_known)}, unlisted={sum(len(l) for _k, l in unlisted)}) "
@@ -148,11 +149,11 @@ class Report:
 
 def analysis_error(prop, tier, msg, seed=0):
     """write a minimal evidence file and return exit code 2"""
-    os.makedirs(os.path.join(VERIF, 'evidence'), exist_ok=True)
+    os.makedirs(EVDIR, exist_ok=True)
     ev = dict(property_id=prop, tier=tier, seed=int(seed), level='other',
               coverage=dict(explanation=f"analysis error: {msg}", evaluations=0, distinct_nontrivial=0, samples=[]),
               assumptions=[], wall_s=0.0, violations=0)
-    with open(os.path.join(VERIF, 'evidence', f"{prop}.json"), 'w') as f:
+    with open(os.path.join(EVDIR, f"{prop}.json"), 'w') as f:
         json.dump(ev, f, indent=1)
     print(f"ANALYSIS-ERROR property={prop} {msg}")
     return 2
